@@ -611,3 +611,126 @@ class AsyncExecAll(AsyncBinding, ExecAll):
     @property
     def loops(self):
         return {0: LoopSpec(None, coro_list=True), 1: LoopSpec(self._inv)}
+
+
+# =========================================================================== CallbacksRegistry.check
+KEY = z3.Function("KEY", Int, Int, Str)  # CallbackGroup.build_key: f"{group.name}@{id(specs)}" (injective, assumed)
+
+
+from pyvc.models import model as _model  # noqa: E402
+
+
+@_model
+def group_build_key(ex, path, recv, ca, node):
+    return [(path, S(KEY(recv.e, ref_of(ca.pos[0]))))]
+
+
+ClassModel("CallbackGroup", methods={"build_key": group_build_key})
+_CL["CallbackSpec"].fields.update({"func": "Val", "names_not_found": "Val"})
+_CL["CallbackSpec"].fields["group"] = "CallbackGroup"
+from pyvc.core import HEAP_SORTS as _HS  # noqa: E402
+for _f in ("func", "names_not_found"):
+    _HS.setdefault("CallbackSpec." + _f, z3.ArraySort(Int, Int))
+
+
+def spec_eq(ex, path, a, b):
+    """CallbackSpec.__eq__: the real body (func and group)."""
+    outs = ex.call_inline(path, CBQ + "CallbackSpec.__eq__", a, __import__("pyvc.execu", fromlist=["CallArgs"]).CallArgs([b], {}))
+    from pyvc.core import truth_of
+    return [(p, r if isinstance(r, __import__("pyvc.execu", fromlist=["Raise"]).Raise) else truth_of(p, r)) for p, r in outs]
+
+
+_CL["CallbackSpec"].eq_fn = spec_eq
+_CL["CallbackSpecList"].iter_fn = lambda ex, path, v: O(path.sel("CallbackSpecList.items", v.e), "list[CallbackSpec]")
+_CL["CallbacksRegistry"].methods["__getitem__"] = INL(CBQ + "CallbacksRegistry.__getitem__")
+_CL["CallbacksRegistry"].methods["check"] = C(CBQ + "CallbacksRegistry.check")
+from pyvc.execu import CONTRACTS as _CT  # noqa: E402
+_CT[CBQ + "CallbacksRegistry.__getitem__"] = type("InlGetitem", (Contract,), {"qualnames": [CBQ + "CallbacksRegistry.__getitem__"], "inline": True})()
+
+
+def same_spec(s, x, y):
+    """What CallbackSpec.__eq__ decides: same func and same group."""
+    return z3.And(s.sel("CallbackSpec.func", x) == s.sel("CallbackSpec.func", y),
+                  s.sel("CallbackSpec.group", x) == s.sel("CallbackSpec.group", y))
+
+
+def spec_resolved(s, specs, sp):
+    """Some wrapper registered under the spec's (group, list) key was built from an equal spec."""
+    key = KEY(s.sel("CallbackSpec.group", sp), specs)
+    ex = reg_exec(s, key)
+    arr, h, t = exec_abs(s, ex)
+    p = z3.Const("p!sr", Int)
+    return z3.And(reg_has(s, key), z3.Exists([p], z3.And(
+        p >= h, p < t, same_spec(s, s.sel("CallbackWrapper.meta", z3.Select(arr, p)), sp))))
+
+
+@register
+class RegistryCheck(Contract):
+    """CallbacksRegistry.check(specs) (C08): a spec that is not a naming-convention default and for
+    which nothing was registered (unknown name, or an expression naming something no provider has)
+    raises AttrNotFound — an InvalidDefinition — when the machine is instantiated."""
+
+    qualnames = [CBQ + "CallbacksRegistry.check"]
+    params = [("self", "CallbacksRegistry"), ("specs", "CallbackSpecList")]
+    returns = "None"
+    raises = True
+    exc_classes = ["AttrNotFound"]
+    modifies = ["dict.has", "dict.val", "CallbacksExecutor.items+", "CallbacksExecutor.items_already_seen+",
+                "deque.arr+", "deque.head+", "deque.tail+", "set.has+", "list.arr+", "list.len+"]
+    properties = ["C08"]
+
+    def pre(self, s, a):
+        f = dict(wf_world(s))
+        f["self-is-registry"] = a.self.e == W.REG
+        f["registry-wf"] = wf_registry(s)
+        lst = s.sel("CallbackSpecList.items", a.specs.e)
+        k = z3.Const("k!rcp", Int)
+        f["specs-valid"] = z3.And(lst >= FIRST_ADDR, lst < s["ghost.alloc"], z3.ForAll([k], z3.Implies(
+            z3.And(k >= 0, k < s.sel("list.len", lst)), z3.And(z3.Select(s.sel("list.arr", lst), k) >= FIRST_ADDR,
+                                                             z3.Select(s.sel("list.arr", lst), k) < s["ghost.alloc"]))))
+        return f
+
+    def _unresolved(self, s0, a, upto=None):
+        lst = s0.sel("CallbackSpecList.items", a.specs.e)
+        arr, n = s0.sel("list.arr", lst), s0.sel("list.len", lst)
+        k = z3.Const("k!ru", Int)
+        sp = z3.Select(arr, k)
+        return z3.Exists([k], z3.And(k >= 0, k < (n if upto is None else upto),
+                                     z3.Not(s0.sel("CallbackSpec.is_convention", sp)), z3.Not(spec_resolved(s0, a.specs.e, sp))))
+
+    def post(self, s0, s, a, r):
+        return {"C08|accepted-only-if-every-explicit-spec-was-resolved": z3.Not(self._unresolved(s0, a))}
+
+    def exc_post(self, s0, s, a, x):
+        return {"C08|rejected-only-for-an-unresolved-explicit-spec": self._unresolved(s0, a)}
+
+    def _inv_outer(self, s0, s, a, l):
+        from .model import registry_monotone
+        kk = z3.Const("kk!rio", Str)
+        a0, h0, t0 = exec_abs(s0, reg_exec(s0, kk))
+        a1, h1, t1 = exec_abs(s, reg_exec(s, kk))
+        return {"C08|none-unresolved-so-far": z3.Not(self._unresolved(s0, a, l.i)),
+                "registered-executors-unchanged": z3.ForAll([kk], z3.Implies(reg_has(s0, kk), z3.And(
+                    reg_has(s, kk), reg_exec(s, kk) == reg_exec(s0, kk), a1 == a0, h1 == h0, t1 == t0)),
+                    patterns=[reg_has(s, kk)]),
+                "new-groups-are-empty": z3.ForAll([kk], z3.Implies(z3.And(z3.Not(reg_has(s0, kk)), reg_has(s, kk)), t1 == h1),
+                                                  patterns=[reg_has(s, kk)]),
+                "registry-only-gains-empty-groups": registry_monotone(s0, s),
+                "executors-kept": z3.And(others_kept("deque.arr", s0, s, NONE), others_kept("deque.head", s0, s, NONE),
+                                         others_kept("deque.tail", s0, s, NONE), s["CallbackWrapper.meta"] == s0["CallbackWrapper.meta"])}
+
+    def _inv_any(self, s0, s, a, l):
+        p = z3.Const("p!ria", Int)
+        key = KEY(s0.sel("CallbackSpec.group", l.meta.e), a.specs.e)
+        arr, h, t = exec_abs(s, reg_exec(s, key))
+        return {"iterating-the-registered-executor": z3.And(l.n == t - h, l.i >= 0, reg_has(s, key),
+                                                            z3.Implies(l.i < l.n, l.seq(l.i) == z3.Select(arr, h + l.i))),
+                "C08|no-equal-spec-among-the-first-i": z3.ForAll([p], z3.Implies(
+                    z3.And(p >= h, p < h + l.i), z3.Not(same_spec(s0, s0.sel("CallbackWrapper.meta", z3.Select(arr, p)), l.meta.e))),
+                    patterns=[z3.Select(arr, p)])}
+
+    @property
+    def loops(self):
+        lm = ["dict.has", "dict.val", "CallbacksExecutor.items+", "CallbacksExecutor.items_already_seen+", "deque.arr+",
+              "deque.head+", "deque.tail+", "set.has+", "list.arr+", "list.len+"]
+        return {0: LoopSpec(self._inv_outer, modifies=lm), 1: LoopSpec(self._inv_any, modifies=[])}
